@@ -62,7 +62,8 @@ TITLE_WORDS = ["Stew", "Bread", "for", "to", "serve", "serves", "makes", "make",
                "forty", "before", "x", "03", "for2", "Tom's", "100%", "<b>", "\"q\"", "café", "Serve", "MAKES", "a_b", "*em*", "`code`"]
 PHRASES = ["to serve", "to make", "serves", "for", "makes", "serving", "serve", "to serves", "To Serve", "FOR", "Makes", "to  serve", "to\tmake"]
 PROSE = ["Some text.", "Mix {2} eggs with {1/2} cup of milk.", "Plain *emphasis* and `code {3}` span.", "A line with 50% and #hash & <b>raw</b> html.",
-         "Use {1 1/2} tsp \\{not scaled\\} of salt{}.", "Escaped \\{ brace and {0.5} litres.", "Line one\nline two {3} continues."]
+         "Use {1 1/2} tsp \\{not scaled\\} of salt{}.", "Escaped \\{ brace and {0.5} litres.", "Line one\nline two {3} continues.",
+         "Use { to open and `}` to close.", "A lone { before <span title=\"}\">inline html</span> here.", "Brace { then <http://example.com/}> autolink."]
 
 
 class Doc:
@@ -82,6 +83,13 @@ class Doc:
 
 def gen_heading(rng, doc, level=None, force_servings=None):
     level = level or rng.choice([1, 1, 1, 2, 3])
+    if force_servings is None and rng.random() < 0.04:
+        # an empty heading
+        if not doc.first_heading_seen:
+            doc.first_heading_seen = True
+            doc.title = dict(level=level, text="", phrase=None, n=None)
+        doc.add(["#" * level + rng.choice(["", " #"]), ""])
+        return
     words = [rng.choice(TITLE_WORDS) for _ in range(rng.randint(1, 4))]
     title = " ".join(words)
     phrase, n = None, None
@@ -133,6 +141,8 @@ def gen_doc(rng, with_title=None, descs=None, fault=None, simple=False):
         for gi in range(rng.choice([1, 1, 2])):
             g = gen_desc.Gen(rng)
             d = g.desc(nblocks=rng.choice([1, 2, 3]))
+            if descs and rng.random() < 0.3:
+                d = descs[0]        # two independent recipes made of identical blocks
             descs.append(d)
     first_block = True
     for gi, d in enumerate(descs):
